@@ -382,6 +382,9 @@ def route_lane(add_violation, counters, rng, nhist, classes, tag):
     mon = c09.route_histories(rng, nhist, 14, classes, tag)
     counters["route_lane_deliveries"] = counters.get("route_lane_deliveries", 0) + mon.c.get("deliveries", 0)
     counters["route_lane_stories"] = counters.get("route_lane_stories", 0) + mon.c.get("download_route_stories", 0)
+    for k_, v_ in mon.c.items():
+        if k_.startswith("story:"):
+            counters["route_" + k_] = counters.get("route_" + k_, 0) + v_
     for v in mon.viol:
         add_violation("node-route:" + v["key"], v["msg"], v["witness"])
 
